@@ -171,8 +171,8 @@ static void Array_Assign(var self, var obj) {
   if (implements_method(obj, Len, len)
   and implements_method(obj, Get, get)) {
   
-    a->nitems = len(obj);
-    a->nslots = a->nitems;
+    size_t n = len(obj);
+    a->nslots = n;
     
     if (a->nslots is 0) {
       a->data = NULL;
@@ -187,9 +187,15 @@ static void Array_Assign(var self, var obj) {
     }
   #endif
     
-    for(size_t i = 0; i < a->nitems; i++) {
+    /*
+    ** Elements count once they have been assigned: the slots behind them are
+    ** uninitialised memory, and an element's assign may run a collection
+    ** (which walks the counted elements) or raise.
+    */
+    for(size_t i = 0; i < n; i++) {
       Array_Alloc(a, i);
       assign(Array_Item(a, i), get(obj, $I(i)));  
+      a->nitems = i+1;
     }
   
   } else {
@@ -220,16 +226,17 @@ static void Array_Concat(var self, var obj) {
   
   struct Array* a = self;
   
-  size_t i = 0;
   size_t olen = len(obj);
   
   a->nitems += olen;
   Array_Reserve_More(a);
+  a->nitems -= olen;
   
+  /* as in Array_Assign: an element counts once it has been assigned */
   foreach (item in obj) {
-    Array_Alloc(a, a->nitems-olen+i);
-    assign(Array_Item(a, a->nitems-olen+i), item);
-    i++;
+    Array_Alloc(a, a->nitems);
+    assign(Array_Item(a, a->nitems), item);
+    a->nitems++;
   }
   
 }
